@@ -148,6 +148,8 @@ func checkC07(c *HandshakeCase) error {
 			case c.Cuts[i] == -2: // the master rejects the checksum announcement
 				at.plan = &fakemaster.ConnPlan{QueryErr: fakemaster.ErrPacket(1227, "42000", "Access denied")}
 				connectFails = true
+			case c.Cuts[i] == -4: // the handler panics in its first call and the caller recovers
+				at.handler = func(tx *gobinlog.Transaction, st *attemptState) error { panic(handlerPanic{}) }
 			case c.Cuts[i] == -3: // the session is set up, then the write of the dump command fails on the replica's side
 				disarm := failDumpWrite()
 				defer disarm()
@@ -191,6 +193,14 @@ func checkC07(c *HandshakeCase) error {
 			return fmt.Errorf("attempt %d: %v", i+1, err)
 		}
 		accepted += len(st.got)
+		var asked *hist.Pos
+		if st.handlerPanicked {
+			// what the streamer keeps after a panic that unwound through Stream is not specified beyond this:
+			// it is the position the attempt started from or a resume point behind what was accepted
+			if req, ok := st.dump(); ok {
+				asked = &hist.Pos{File: req.File, Off: int64(req.Pos)}
+			}
+		}
 		if accepted > 0 || i > 0 || len(c.Cuts) > 0 {
 			// later attempts: the stored resume position = the commit boundary after the last accepted
 			// transaction (or a unit boundary / rotation target up to the next transaction)
@@ -200,6 +210,9 @@ func checkC07(c *HandshakeCase) error {
 				for k, v := range allowedResume(l, exp, 0, start, 0) {
 					allowed[k] = v
 				}
+			}
+			if asked != nil {
+				allowed[*asked] = true
 			}
 		}
 	}
@@ -292,7 +305,7 @@ func TestC07(t *testing.T) {
 		c.Deadlines = rapid.IntRange(0, 15).Draw(rt, "deadline_mask")
 		na := rapid.IntRange(0, 3).Draw(rt, "failed_attempts")
 		for i := 0; i < na; i++ {
-			c.Cuts = append(c.Cuts, rapid.IntRange(-3, 3).Draw(rt, "cut"))
+			c.Cuts = append(c.Cuts, rapid.IntRange(-4, 3).Draw(rt, "cut"))
 			c.CutExtra = append(c.CutExtra, rapid.IntRange(0, 3).Draw(rt, "cut_extra"))
 		}
 		if na > 0 && rapid.IntRange(0, 2).Draw(rt, "rewinds") == 0 {
